@@ -65,7 +65,8 @@ fn find_collision(items: impl Iterator<Item = (String, String)>) -> ClassResult 
     ClassResult { entities: n, collision }
 }
 
-const CLASSES: [&str; 9] = [
+const CLASSES: [&str; 10] = [
+    "fn-type-helper-names",
     "deep-type-names",
     "type-names",
     "tuple-struct-names",
@@ -143,6 +144,29 @@ fn run_class(class: &str, big: bool) -> ClassResult {
                 }
             }
             res
+        }
+        // Ref cells, array helpers and trait-impl functions for small FUNCTION types: `() -> T`, `(unit) -> T`,
+        // `(unit, unit) -> T`, `(T) -> unit` ... are pairwise different types and need different names
+        // (inside tuples this is KF-30; for these helpers the names are distinct on the unchanged tree)
+        "fn-type-helper-names" => {
+            let leaves = [TTy::TUnit, TTy::TInt32, TTy::TBool, TTy::TString];
+            let mut fts: Vec<TTy> = vec![];
+            for r in &leaves {
+                fts.push(TTy::TFunc { params: vec![], ret_ty: Box::new(r.clone()) });
+                for a in &leaves {
+                    fts.push(TTy::TFunc { params: vec![a.clone()], ret_ty: Box::new(r.clone()) });
+                    for b in &leaves[..2] {
+                        fts.push(TTy::TFunc { params: vec![a.clone(), b.clone()], ret_ty: Box::new(r.clone()) });
+                    }
+                }
+            }
+            let mut all: Vec<(String, String)> = vec![];
+            for t in &fts {
+                all.push((format!("Ref[{:?}]", t), format!("ref:{}", ref_struct_name(t))));
+                all.push((format!("[{:?}; 2]", t), format!("arr:{}", array_helper_fn_name("array_get", &TTy::TArray { len: 2, elem: Box::new(t.clone()) }))));
+                all.push((format!("impl Tr for {:?} :: m", t), format!("impl:{}", go_ident(&trait_impl_fn_name(&TastIdent::new("Tr"), t, "m")))));
+            }
+            find_collision(all.into_iter())
         }
         // distinct user type names keep distinct, legal Go names
         "type-names" => find_collision(ids3.iter().map(|n| (format!("type {n}"), go_type_name_for(&st(n))))),
